@@ -75,19 +75,45 @@ def inverse_shape(chk, cfg, b, rule, what, want_source):
         if item is None:
             chk.cannot(rule, what, "loop element not recognised", b["span"])
             return None
+        # the per-key state test: `contains_key(k)` followed by `insert(k, v)`, or one `entry(k)` lookup matched on Occupied / Vacant
         bg = [g for g in p.guards if g[0] == "bool" and an.is_call(g[1], re.compile(r"HashMap::<.*>::contains_key::<"))]
-        if len(bg) != 1:
-            chk.cannot(rule, what, "iteration path is not keyed by a single contains_key test: " + p.describe()[:200], b["span"])
-            return None
-        test = bg[0][1]
-        present = bg[0][2]
-        m, key = test[2][0], test[2][1]
+        eg = [g for g in p.guards if g[0] == "sw" and isinstance(g[1], tuple) and g[1][0] == "discr" and an.is_call(g[1][1], re.compile(r"HashMap::<.*>::entry$"))]
         ins = [x for x in p.calls if short(x[0]) == "insert"]
-        if len(ins) != 1:
-            chk.fail(rule, what, "mismatch", "iteration path with contains_key=%s performs %d inserts" % (present, len(ins)), b["span"])
-            ok = False
-            continue
-        im, ik, iv = ins[0][1][0], ins[0][1][1], ins[0][1][2]
+        if len(bg) == 1 and not eg:
+            test = bg[0][1]
+            present = bg[0][2]
+            m, key = test[2][0], test[2][1]
+            if len(ins) != 1:
+                chk.fail(rule, what, "mismatch", "iteration path with contains_key=%s performs %d inserts" % (present, len(ins)), b["span"])
+                ok = False
+                continue
+            im, ik, iv = ins[0][1][0], ins[0][1][1], ins[0][1][2]
+        elif len(eg) == 1 and not bg:
+            E = eg[0][1][1]
+            occupied = (eg[0][2] == "==" and eg[0][3] == 0) or (eg[0][2] == "notin" and 0 not in eg[0][3])
+            present = bool(occupied)
+            m, key = E[2][0], E[2][1]
+            want_fn = r"hash_map::OccupiedEntry<.*>::insert$|OccupiedEntry::<.*>::insert$" if present else r"hash_map::VacantEntry<.*>::insert$|VacantEntry::<.*>::insert$"
+            if len(ins) != 1 or not re.search(want_fn, ins[0][0]) or len(ins[0][1]) != 2:
+                chk.fail(rule, what, "mismatch", "iteration path on an %s entry performs %s" % ("occupied" if present else "vacant", [x[0][-60:] for x in ins]), b["span"])
+                ok = False
+                continue
+            ent = ins[0][1][0]
+            while isinstance(ent, tuple) and ent[0] == "deref":
+                ent = ent[1]
+            if isinstance(ent, tuple) and ent[0] == "local" and len(ent) == 2:
+                # `mut seen` bound by the match arm and borrowed mutably for the call: its value before the call
+                v0 = (getattr(p.raw, "env", None) or {}).get(ent[1])
+                if v0 is not None:
+                    ent = an.norm_of(p)(an.peel_posts(v0)[0])
+            if not (isinstance(ent, tuple) and ent[0] == "F" and isinstance(ent[1], tuple) and ent[1][0] == "downcast" and ent[1][1] == E):
+                chk.fail(rule, what, "mismatch", "the insert does not go through the entry that was looked up: " + show(ent)[:100], b["span"])
+                ok = False
+                continue
+            im, ik, iv = m, key, ins[0][1][1]
+        else:
+            chk.cannot(rule, what, "iteration path is not keyed by a single contains_key test or entry lookup: " + p.describe()[:200], b["span"])
+            return None
         # roles by use (the two components of a row have different types, so the key component is the amino acid and the cloned
         # one the codon, whether the row is a tuple or a two-field struct): both must be distinct components of this element
         def comp_of(t):
@@ -99,6 +125,8 @@ def inverse_shape(chk, cfg, b, rule, what, want_source):
         if roles.setdefault("amino", comp_of(key)) != comp_of(key):
             same_key = False
         same_map = m[0] == "loopvar" and im[0] in ("local", "loopvar") and (im[1] == m[2] if im[0] == "local" else im == m)
+        if eg:
+            same_map = m[0] in ("loopvar", "local")
         if present:
             val_ok = opt_kind(iv)[0] == "None"
             want = "None"
